@@ -412,6 +412,9 @@ def count_and_time_step(repo, rep):
 
 
 def run(repo, rep, tier):
+    rep.rule("R-C19-10", "(shared) the tracking thresholds reach the kernel in the slots of the parameters they are named after; operands are aligned by label")
+    from .shared import ufunc_forwarding
+    rep.floor("R-C19-10", "apply_ufunc sites of the tracker", ufunc_forwarding(repo, rep, "R-C19-10", ("wavespectra.partition.tracking",)), 1)
     count_and_time_step(repo, rep)
     rep.rule("R-C19-7", "every parameter of the functions behind this property is read (partition tracking): none is accepted and then ignored, and no control parameter (cutoff, limit, tolerance, window, count, switch) is replaced by another value before use (coercion and default filling aside)")
     from .shared import unused_parameters
